@@ -299,7 +299,7 @@ class OpGen(object):
             f = st.field(x.name) if x is not None else None
             poss = list(s.possible_types(scope))
             rng.shuffle(poss)
-            for tname in poss[:2]:
+            for tname in poss[:4]:
                 if f is not None and s.types[tname].field(x.name) is not None:
                     sels.append(OInline(tname, [OField(x.name, tname, x.alias, x.args, [],
                                                         self.selection_set(S.unwrap(f.type), depth + 1))]))
